@@ -158,6 +158,26 @@ def check_protein(case):
     return res
 
 
+# ------------------------------------------------------------------ exhaustive state table
+def table_cases():
+    """Every amino-acid input name (20 + protonation variants) x chain position x force field
+    (PARSE also with --neutraln / --neutralc): the residue's net charge must be the formal charge of
+    its final state.  Finite, enumerated completely."""
+    from . import c06
+
+    out = []
+    k = 0
+    for ff in strat.FFS:
+        optsets = [[]] + ([["--neutraln"], ["--neutralc"], ["--neutraln", "--neutralc"]] if ff == "PARSE" else [])
+        for opts in optsets:
+            for name in topo.AA20 + topo.VARIANTS:
+                for pos in ("N", "M", "C"):
+                    k += 1
+                    ch = c06._context(k % 3, name, pos)
+                    out.append(dict(part="table", desc=dict(chains=[ch], waters=[]), ff=ff, opts=list(opts)))
+    return out
+
+
 # ------------------------------------------------------------------ nucleic acids
 @st.composite
 def na_case(draw):
@@ -293,6 +313,7 @@ def check_cyclic(case):
 def parts(tier):
     return [
         Part("protein", check_protein, strategy=protein_case(), budget=dict(quick=480, thorough=10000)),
+        Part("table", check_protein, cases=table_cases, exhaustive=True),
         Part("na", check_na, strategy=na_case(), budget=dict(quick=160, thorough=3000)),
         Part("cyclic", check_cyclic, strategy=cyclic_case(), budget=dict(quick=64, thorough=1200)),
     ]
